@@ -101,6 +101,54 @@ TRIGGERS = {
            'a list / deque / long tuple holding equal items of different '
            'types ([1, 1.0], [True, 1]): the inferred hint rejects the '
            'object'),
+ # ---- round 2: same properties, authors told to stay away from the file of round 1
+ 'S2-C01': ('redpep484612646typearg.py: TypeVar lookup tables merged with the '
+            'operands of | swapped (parent wins)',
+            'a subscripted user generic with >= 2 type parameters one of whose '
+            'arguments is another generic subscripted over the same TypeVar '
+            '(Table[str, Bag[int]], Bag(list[T])): conforming objects '
+            'rejected'),
+ 'S2-C02': ('redpep484612646typearg.py: fallback of a multi-hop TypeVar '
+            'lookup returns the first variable instead of the last',
+            'an unsubscripted subclass of a generic subscripted by bounded '
+            'TypeVars (Scores(Table[IntT, StrT])): the bound is never checked, '
+            'Scores({"a": 1}) accepted under every draw'),
+ 'S2-C03': ('logcls.py: cause finder of quasi-iterables re-selects item 0 '
+            'instead of the sampled item',
+            'Iterable/Container/Reversible[T] + a sequence whose item 0 is '
+            'valid and a later, sampled item is not: the rejection surfaces '
+            'as the private desynchronisation exception'),
+ 'S2-C04': ('utilfuncwrap.py is_func_wrapper_isomorphic: counts flexible '
+            'instead of all non-variadic parameters (keyword-only ignored)',
+            '@beartype over a functools.wraps closure (*args, own_kwonly=..., '
+            '**kwargs): treated as pass-through, the call is checked against '
+            'the wrappee and the closure\'s own keyword is rejected'),
+ 'S2-C05': ('clawimpcache.py marker: field "t" built from '
+            'claw_decor_place_func',
+            'two interpreter runs over one source tree under non-default hook '
+            'confs differing only in claw_decor_place_type, and a class whose '
+            'decorator order matters: the second run reuses the first .pyc'),
+ 'S2-C06': ('clawpkgmain.py _blacklist_packages: "not in" became a falsy test '
+            '(the fully-skipped marker is an empty dict)',
+            'skipping a dotted descendant of an already skipped package '
+            'un-skips the ancestor'),
+ 'S2-C07': ('fwdscopemake.py: class locals taken from the root instead of the '
+            'current class',
+            'decorated class with a nested class whose methods use string '
+            'hints naming an attribute of the nested class body'),
+ 'S2-C08': ('calldatadecorfunc.py: coroutine/generator kind read from the '
+            'unwrapped function\'s code object',
+            '@beartype over a functools.wraps (*args, **kwargs) closure whose '
+            'kind differs from the function it wraps (async closure over a '
+            'plain function ...): the wrapper takes the inner kind'),
+ 'S2-C09': ('fwdrefmeta.py: the describing hook of reference proxies uses the '
+            'O(n) configuration',
+            'a string forward reference to a non-class hint + a rejected call '
+            '+ a large conforming container visited before the culprit'),
+ 'S2-C10': ('datacodepep525.py: asend() branch chosen by truthiness instead '
+            'of "is None"',
+            'asend() of a falsy non-None object into a decorated async '
+            'generator: the body receives None'),
  'S-C08': ('async-generator wrapper forwards only Exception subclasses via '
            'athrow()',
            'a started decorated async generator receiving athrow() of a '
@@ -150,6 +198,32 @@ HISTORY = {
  'S-C19': 'MISSED by the first C19 (no two hints printing alike in its pools) '
           'and INCONCLUSIVE in C14 (budget); added the homonym stream to C19 '
           'and the homonyms family to C14 - now caught by both',
+ 'S2-C01': 'MISSED at first contact (the hint grammar had one-parameter user '
+           'generics only); added Bag / Table / PairL / Scores generics to '
+           'hintenv and the model (nested over a shared TypeVar, two '
+           'parameters, bounded TypeVars left open) - caught by C01',
+ 'S2-C02': 'MISSED at first contact, same cause as S2-C01 - caught by C02 '
+           '(unreachable-index on Scores items)',
+ 'S2-C04': 'MISSED at first contact (no functools.wraps closures among the '
+           'decorated callables); added the wraps stream to C04 (pure '
+           'pass-through closures and closures with parameters of their own; '
+           'oracle = the undecorated closure). The new stream at once found a '
+           'genuine defect on the unchanged tree (fixed, 9ece512)',
+ 'S2-C05': 'MISSED by C05 (single interpreter run by construction; the change '
+           'only shows across runs sharing a bytecode cache = C16) and at '
+           'first by C16 (only single-option configurations in its pool); '
+           'C16 now draws from the full product of the AST-shaping options '
+           'and steps between neighbours - caught by C16',
+ 'S2-C08': 'MISSED at first contact (only directly defined functions); '
+           'bodies are now also generated as functools.wraps pass-through '
+           'closures around a function of another kind - caught',
+ 'S2-C09': 'MISSED at first contact (hints were always passed as objects); '
+           'one case in five now reaches the hint through a forward '
+           'reference bound after decoration - caught',
+ 'S2-C10': 'MISSED by C10, CAUGHT by C08 at first contact (the defect is in '
+           'the generator protocol forwarding); C10 now also sends falsy '
+           'objects and spies into decorated generators and compares '
+           'identity - caught by both',
  'S-C10': 'MISSED by the first C10 (one-shot spies had no __len__); added '
           'PySizedIterator/PySizedIterable spies to C09 and C10 - now caught',
 }
@@ -177,6 +251,10 @@ def main():
             caught.append('%s %s%s' % (
                 c, r.get('result'),
                 (' (`%s`)' % '`, `'.join(k[:70] for k in keys[:3])) if keys else ''))
+        fc = meta.get('first_contact') or {}
+        if fc:
+            first = '; '.join('%s %s' % (c, r.get('result')) for c, r in sorted(fc.items()) if isinstance(r, dict))
+            caught.insert(0, 'FIRST CONTACT (checks as of %s): %s. NOW:' % (fc.get('verif_commit', '?'), first))
         rows.append((sid, meta.get('breaks_property'), site, needs,
                      '%s/%s' % (t.get('still_passing'), t.get('stable_pass')),
                      'fails/passes' if (d.get('on_changed_tree', {}).get('exit') == 1
